@@ -109,15 +109,21 @@ def rule_select(ctx, F, rule="R1"):
                % (show(pos_fin), show(st_fin)), site, trace_of(p), what="not-reset")
         if has_tl == 1:
             cb = calls(p, lambda e: e["fn"]["name"] == "clone_box")
-            ok = len(sw) == 1 and len(cb) == 1 and tl_fin[0] == "agg" and tl_fin[3] == "Some"
+            ok = len(sw) == 1 and len(cb) <= 1 and tl_fin[0] == "agg" and tl_fin[3] == "Some"
             detail = ""
             if ok:
                 src = ("field", ("variant", lookup[0]["result"], "Some"), "0")
-                ok = pse.contains(cb[0]["descs"][0], src)
+                # the copy: dyn_clone::clone_box(entry), or Clone::clone of the boxed entry (the engine's clone model
+                # yields the entry's own value; nothing can be moved out of the borrowed map, so it is a copy)
+                if cb:
+                    ok = pse.contains(cb[0]["descs"][0], src)
+                    marker = cb[0]["result"]
+                else:
+                    marker = src
                 # blended from this entity's component, before it is installed
-                ok = ok and sw[0]["descs"][1] == ("&", ("deref", comp)) and pse.contains(sw[0]["descs"][0], cb[0]["result"])
+                ok = ok and sw[0]["descs"][1] == ("&", ("deref", comp)) and pse.contains(sw[0]["descs"][0], marker)
                 tl_store = [e for e in stores if e["cell"] == acell and e["path"] == (("field", AR["timeline"]),)]
-                ok = ok and tl_store and sw[0]["seq"] < tl_store[0]["seq"] and pse.contains(tl_fin, cb[0]["result"])
+                ok = ok and tl_store and sw[0]["seq"] < tl_store[0]["seq"] and pse.contains(tl_fin, marker)
                 detail = "start_with(%s)" % [show(d)[:80] for d in sw[0]["descs"]]
             ctx.ob(rule, lab + "/blend-and-install", ok,
                    "the key's timeline is cloned, started from the entity's current component values (start_with(&component)) "
